@@ -195,6 +195,10 @@ func setFloatFromBigInt(value *big.Int, dst reflect.Value) {
 		PanicErrorConverting(value, dst.Type(), err)
 	}
 	dst.SetFloat(v)
+	if dst.Float() != v {
+		// The value is exact as a float64, but not as the (float32) destination
+		PanicCannotConvert(value, dst.Type())
+	}
 }
 
 func setFloatFromBigFloat(value *big.Float, dst reflect.Value) {
